@@ -31,3 +31,6 @@ def run(repo, res, tier):
     t4keys = {f"{f.function} `{f.anchor}`" for f in t4}
     for w in parserules.event_sites(an, "while"):
         res.oblige("T4", w, ok=w not in t4keys, detail="the empty-value repair hook consumes a token on every cycle")
+    # the token in front of which an empty value is supplied: reserved keywords and statement delimiters only
+    from .. import langrules as _lr5
+    _lr5.rule_hook_lang(repo, res, _lr5.analyse(repo))
